@@ -5,6 +5,7 @@ import (
 	"rare/pkg/aggregation/sorting"
 	"rare/pkg/expressions"
 	"rare/pkg/stringSplitter"
+	"slices"
 	"strings"
 )
 
@@ -237,6 +238,9 @@ func (s *AccumulatingGroup) Groups(sort sorting.NameSorter) []GroupKey {
 	for g := range s.data {
 		ret = append(ret, g)
 	}
+	// Start from the order of the group keys rather than from map order:
+	// groups whose sort values are equal would otherwise change places between calls
+	slices.Sort(ret)
 	if s.sortExpr != nil {
 		ctx := accumulatorGroupSortContext{}
 		sorting.SortBy(ret, sort, func(x GroupKey) string {
